@@ -84,6 +84,29 @@ ExpBases == { D("0"), <<MinInt, 0>>, D("1"), D("1.5"), D("12345"), D("0.001"), D
 Ints == <<"0", "1", "9", "10", "15", "16", "255", "256", "65535", "4294967295", "4294967296", "9007199254740992", "9007199254740993", "9007199254740995",
           "9223372036854775807", "9223372036854775808", "18446744073709549568", "18446744073709551615", "18446744073709551614", "1311768467463790320", "81985529216486895">>
 
+\* ---- SOURCE spellings of strings (family srcstr): what darklua's READER makes of a literal written in the source.  A value
+\* the writer then renders faithfully is only as good as the value that was read: every escape of Lua 5.1 / Luau, in both
+\* quoting forms, followed and preceded by neighbours that change its extent (`\065` + digit, `\z` + each kind of white space,
+\* incl. the vertical tab and form feed C's isspace accepts and the Unicode spaces it does not), and long brackets.
+Bs(t) == BytesOf(t)
+SimpleEsc == {Bs("\\a"), Bs("\\b"), Bs("\\f"), Bs("\\n"), Bs("\\r"), Bs("\\t"), Bs("\\v"), Bs("\\\\"), Bs("\\\""), Bs("\\'")}
+LineCont == {<<92, 10>>, <<92, 13>>, <<92, 13, 10>>}
+DecEsc == {Bs("\\0"), Bs("\\00"), Bs("\\000"), Bs("\\7"), Bs("\\65"), Bs("\\065"), Bs("\\255"), Bs("\\2555"), Bs("\\0651"), Bs("\\10"), Bs("\\1a"), Bs("\\001x"), Bs("\\9")}
+HexEsc == {Bs("\\x00"), Bs("\\x41"), Bs("\\x7f"), Bs("\\x80"), Bs("\\xff"), Bs("\\xFF"), Bs("\\xfF0"), Bs("\\x410")}
+UniEsc == {Bs("\\u{0}"), Bs("\\u{41}"), Bs("\\u{7F}"), Bs("\\u{80}"), Bs("\\u{7ff}"), Bs("\\u{800}"), Bs("\\u{D7FF}"), Bs("\\u{E000}"), Bs("\\u{FFFF}"),
+           Bs("\\u{10000}"), Bs("\\u{10FFFF}"), Bs("\\u{000041}"), Bs("\\u{e9}")}
+\* white space after \z: none, ASCII (space, TAB, LF, CR, CRLF, VT, FF, mixed), and characters that are NOT white space for Lua
+ZSpaces == {<<>>, <<32>>, <<9>>, <<10>>, <<13>>, <<13, 10>>, <<11>>, <<12>>, <<32, 10, 9, 32>>, <<10, 10>>, <<32, 11, 32>>,
+            <<194, 160>>, <<194, 133>>, <<227, 128, 128>>, <<226, 128, 168>>, <<32, 194, 160>>, <<10, 227, 128, 128, 32>>, <<225, 154, 128>>, <<226, 128, 175>>}
+ZEsc == {<<92, 122>> \o w : w \in ZSpaces}
+RawBodies == {<<9>>, <<11>>, <<12>>, <<127>>, <<194, 160>>, <<227, 128, 128>>, <<1>>, <<45, 45>>, <<91, 91>>, <<93, 93>>, <<96>>, <<123>>}
+EscBodies == SimpleEsc \cup LineCont \cup DecEsc \cup HexEsc \cup UniEsc \cup ZEsc \cup RawBodies
+Quoted == {<<q>> \o pre \o e \o post \o <<q>> : q \in {39, 34}, pre \in {<<>>, <<97>>}, e \in EscBodies, post \in {<<>>, <<98>>, <<49>>}}
+          \cup {<<q>> \o e1 \o e2 \o <<q>> : q \in {34}, e1 \in {Bs("\\z "), Bs("\\65"), Bs("\\x41"), <<92, 10>>}, e2 \in SimpleEsc \cup ZEsc \cup DecEsc}
+LongForms == {Bs("[[x]]"), <<91, 91, 10, 120, 93, 93>>, <<91, 91, 10, 10, 120, 93, 93>>, Bs("[=[x]]y]=]"), Bs("[==[]==]"), <<91, 91, 97, 10, 98, 93, 93>>,
+              Bs("[[ \\n \\z ]]"), Bs("[[--x]]"), Bs("[=[ [[x]] ]=]"), <<91, 61, 91, 10, 93, 93, 93, 61, 93>>, Bs("[[]]"), Bs("[===[ ]==] ]===]")}
+SourceSpellings == Quoted \cup LongForms
+
 VARIABLES kind, fam, key, s, d, aux
 vars == <<kind, fam, key, s, d, aux>>
 Init ==
@@ -92,7 +115,9 @@ Init ==
   \/ /\ kind = "numseed" /\ On("nums") /\ fam = "nums" /\ key \in NumKeys /\ s = <<>> /\ d = <<0, 0>> /\ aux = <<0, 0>>
   \/ /\ kind = "expseed" /\ On("nums") /\ fam = "exp" /\ key \in {0} /\ s = <<>> /\ d = <<0, 0>> /\ aux = <<0, 0>>
   \/ /\ kind = "intseed" /\ On("nums") /\ fam = "ints" /\ key \in {0} /\ s = <<>> /\ d = <<0, 0>> /\ aux = <<0, 0>>
+  \/ /\ kind = "srcseed" /\ On("srcstr") /\ fam = "srcstr" /\ key \in {0} /\ s = <<>> /\ d = <<0, 0>> /\ aux = <<0, 0>>
 Next ==
+  \/ kind = "srcseed" /\ kind' = "src" /\ s' \in SourceSpellings /\ UNCHANGED <<fam, key, d, aux>>
   \/ kind = "strseed" /\ kind' = "str" /\ s' \in StrMembers(fam, key) /\ UNCHANGED <<fam, key, d, aux>>
   \/ kind = "numseed" /\ kind' = "num" /\ d' \in Doubles(key) /\ UNCHANGED <<fam, key, s, aux>>
   \/ kind = "expseed" /\ kind' = "nume" /\ d' \in ExpBases /\ aux' \in Exponents \X {0, 1} /\ UNCHANGED <<fam, key, s>>
@@ -100,7 +125,8 @@ Next ==
 \* the design theorem, with the open finding as a named exemption
 RoundTripOrKnown == kind # "str" \/ RoundTrip(s) \/ (DevLongBracket /\ Trigger_F_C13_a(s))
 Emit ==
-  CASE kind = "str" -> EmitLine("CASE " \o JsonOf([kind |-> "str", fam |-> fam, b |-> s, rt |-> RoundTrip(s), trig |-> Trigger_F_C13_a(s),
+  CASE kind = "src" -> EmitLine("CASE " \o JsonOf([kind |-> "src", fam |-> fam, b |-> s]))
+    [] kind = "str" -> EmitLine("CASE " \o JsonOf([kind |-> "str", fam |-> fam, b |-> s, rt |-> RoundTrip(s), trig |-> Trigger_F_C13_a(s),
                                                     u |-> NeedsUnicodeEscape(s), long |-> Len(s) >= 2 /\ UsesLongBracket(s), model |-> WriteString(s)]))
     [] kind = "num" -> EmitLine("CASE " \o JsonOf([kind |-> "num", fam |-> fam, hi |-> d[1], lo |-> d[2]]))
     [] kind = "nume" -> EmitLine("CASE " \o JsonOf([kind |-> "nume", fam |-> fam, hi |-> d[1], lo |-> d[2], exp |-> aux[1], upper |-> aux[2] = 1]))
